@@ -14,6 +14,7 @@ import Driver.Mint
 import Driver.GovTally
 import Driver.Gauge
 import Driver.RS
+import Driver.DA
 open Sunrise.Driver
 
 def evalLine (line : String) : String :=
@@ -44,6 +45,7 @@ def suites : List (String × (IO.FS.Stream → IO.FS.Stream → IO Unit)) :=
   [("govtally", GovTallySuite.run)] ++
   [("gauge", GaugeSuite.run)] ++
   [("rs", RSSuite.run)] ++
+  [("da", DASuite.run)] ++
   []
 
 def main : IO Unit := do
